@@ -193,7 +193,7 @@ def run(ctx):
         if r["ok"]:
             r["ok"] = False; r["failures"].append("extracted model no longer builds: " + str(e)[-400:])
     impl = vlib.build_harness("c07")
-    ngen, ncol = (300, 60) if ctx.thorough() else (40, 10)
+    ngen, ncol = (300, 60) if ctx.thorough() else (90, 20)
     if not r["ok"]:
         ngen, ncol = ngen * 2, ncol * 2
     cases = []
@@ -287,6 +287,10 @@ def run(ctx):
                     hist["in_run_duplicates"] += n - 1
                 if x in occ and n > occ[x]:
                     bad("a blob was stored more often than it occurs in the new data (outside the in-run window)", case, k, "%s stored %d times, occurs %d times" % (x, n, occ[x]))
+            if b["removes"] != 0:
+                bad("a backup removed files from the repository", case, k, str(b["removes"]))
+            if (b["index_writes"] == 0) != (len(b["packs"]) == 0):
+                bad("index files written without packs, or packs without an index file", case, k, "index files %d packs %d" % (b["index_writes"], len(b["packs"])))
             if b["unindexed_refs"] != 0:
                 bad("a blob referenced by the new snapshot is not found in the reloaded index under its type", case, k, str(b["unindexed_refs"]))
             if b["packs_after"] - b["packs_before"] != len(b["packs"]) or b["written"] != len(b["packs"]):
@@ -305,8 +309,8 @@ def run(ctx):
             # (a) unchanged data adds nothing, same tree id
             if prev is not None and not b["edits"]:
                 hist["rebackups_unchanged"] += 1
-                if b["packs"] or b["data_added"] != 0 or b["data_blobs"] != 0 or b["tree_blobs"] != 0:
-                    bad("re-backup of unchanged data added data", case, k, "packs %d data_added %d data_blobs %d tree_blobs %d" % (len(b["packs"]), b["data_added"], b["data_blobs"], b["tree_blobs"]))
+                if b["packs"] or b["data_added"] != 0 or b["data_blobs"] != 0 or b["tree_blobs"] != 0 or b["index_writes"] != 0:
+                    bad("re-backup of unchanged data added data", case, k, "packs %d data_added %d data_blobs %d tree_blobs %d index files %d" % (len(b["packs"]), b["data_added"], b["data_blobs"], b["tree_blobs"], b["index_writes"]))
                 if b["tree"] != prev["tree"]:
                     bad("re-backup of unchanged data produced a different tree id", case, k, "")
             # (d) duplicate / move / remove only: content is referenced, not stored again
